@@ -845,3 +845,5 @@ META = {
     "contextlib.contextmanager semantics (generator close raises at the yield).",
     "more": "Thread-local containers cross a thread boundary only as copies (no public method returns one uncopied or adopts a caller's object). The hand-over accessor returns the whole thread-local view (masks included); asked for a thread-local set, _set_item reaches the private layer on every normal path.",
 }
+
+META["more"] += ' No write or delete changes both layers of the two-layer store. Env.swap captures a key once (a second source keeps the first capture), a set that fails on entry still reaches the restore, the overlay pop may be governed by a flag set right after the push, and the exit leaves no private copy for a key that had none when captured (four defects repaired). Iteration yields keys that only an overlay provides.'
